@@ -29,6 +29,10 @@ type GlobCase struct {
 	// (holding a.x, .h.x and sub/b.x) kept outside the tree, so it is never dangling and never a cycle.
 	// A linked file is a file; the files below a linked directory have relative paths like any other.
 	Links map[string]string `json:"links,omitempty"`
+	// Locked: directories of the tree whose mode is 000 while the patterns are expanded. For a user who
+	// may not list them (anyone but root) they are directories without visible content; everything
+	// beside and behind them is matched as usual.
+	Locked []string `json:"locked,omitempty"`
 }
 
 // linkPool is used by the enumerated link cases.
@@ -119,6 +123,13 @@ func execGlob(s *ev.Shard, root string, c GlobCase) *rp.Fail {
 	src := c.Source()
 	if err := writeFile(root, "spokfile", src); err != nil {
 		return &rp.Fail{Sig: "harness", Msg: err.Error()}
+	}
+	for _, d := range c.Locked {
+		p := filepath.Join(root, filepath.FromSlash(d))
+		if err := os.Chmod(p, 0); err != nil {
+			return &rp.Fail{Sig: "harness", Msg: err.Error()}
+		}
+		defer os.Chmod(p, 0o755)
 	}
 	size := len(c.Paths)*4 + len(c.Patterns)
 	var tasks []string
